@@ -258,6 +258,14 @@ class Interp:
         self.max_steps = max_steps
         self.trace = []               # (callee text, args, kwargs) of stub calls
 
+    def to_str(self, x):
+        """str(x) as Python does it: a stand-in of a class whose source is known prints through its __str__"""
+        if isinstance(x, Obj):
+            m = self.methods.get(x.kind, {}).get('__str__')
+            if isinstance(m, ast.FunctionDef):
+                return self.call_function(m, [x], {}, Env())
+        return str(x)
+
     # ---- helpers -----------------------------------------------------------------------------------------------------
     def is_instance(self, o, cls):
         names = cls if isinstance(cls, (list, tuple)) else [cls]
@@ -612,6 +620,8 @@ class Interp:
                 return -v
         if isinstance(e, ast.BinOp):
             l, r = self.ev(e.left, env), self.ev(e.right, env)
+            if any(isinstance(x, (Obj, ClassRef)) for x in (l, r)) and not any(getattr(type(x), '_interp_safe', False) for x in (l, r)):
+                raise AnalysisError(f'interpreter: operator in `{norm(e)[:60]}` applied to a stand-in that does not model it')
             if isinstance(e.op, ast.Add):
                 return l + r
             if isinstance(e.op, ast.Sub):
@@ -670,7 +680,18 @@ class Interp:
         if isinstance(e, ast.Dict):
             return {self.ev(k, env): self.ev(v, env) for k, v in zip(e.keys, e.values)}
         if isinstance(e, ast.JoinedStr):
-            return ''.join(v.value if isinstance(v, ast.Constant) else str(self.ev(v.value, env)) for v in e.values)
+            out = []
+            for v in e.values:
+                if isinstance(v, ast.Constant):
+                    out.append(v.value)
+                    continue
+                x = self.ev(v.value, env)
+                txt = repr(x) if v.conversion == 114 and not isinstance(x, Obj) else self.to_str(x)
+                if v.format_spec is not None:
+                    spec = self.ev(v.format_spec, env)
+                    txt = format(x, spec) if not isinstance(x, Obj) else txt
+                out.append(txt)
+            return ''.join(out)
         if isinstance(e, (ast.ListComp, ast.GeneratorExp, ast.SetComp)):
             out = []
             self._comp(e.generators, 0, env, lambda en: out.append(self.ev(e.elt, en)))
@@ -917,6 +938,8 @@ class Interp:
                     return list(zip(*args))
                 if n == 'range':
                     return list(range(*args))
+                if n == 'str' and len(args) == 1 and isinstance(args[0], Obj) and not kwargs:
+                    return self.to_str(args[0])
                 try:
                     return {'list': list, 'tuple': tuple, 'set': set, 'sorted': sorted, 'dict': dict, 'str': str, 'int': int, 'bool': bool,
                             'any': any, 'all': all, 'max': max, 'min': min, 'id': id}[n](*args, **kwargs)
